@@ -1,5 +1,8 @@
 import OxiddModel.Util.Proto
 import OxiddModel.Bdd.Driver
+import OxiddModel.HashTbl.Driver
+import OxiddModel.Mtbdd.Driver
+import OxiddModel.Circuit.Driver
 
 open OxiddModel
 
@@ -7,7 +10,10 @@ def echoProto : Proto := { σ := Unit, init := (), step := fun s l => (s, l) }
 
 def protos : List (String × Proto) := [
   ("echo", echoProto),
-  ("bdd", OxiddModel.Bdd.proto)
+  ("bdd", OxiddModel.Bdd.proto),
+  ("tbl", OxiddModel.HashTbl.proto),
+  ("mtbdd", OxiddModel.Mtbdd.proto),
+  ("circ", OxiddModel.Circuit.proto)
 ]
 
 def main (args : List String) : IO UInt32 := do
